@@ -246,7 +246,39 @@ def c15(run):
     return run.finish(rule=CH_RULE, extra_assumptions=CH_ASSUME)
 
 
-PROPS = {"C03": c03, "C14": c14, "C15": c15, "C13": c13, "C01": c01, "C02": c02, "C07": c07, "C08": c08, "C09": c09, "C10": c10, "C12": c12}
+# ============================================================== injection
+def inj_cfg(maxops, maxid, dev=(), emit=True):
+    return ("SPECIFICATION Spec\nCONSTANTS\n MaxOps = %d\n MaxId = %d\n EmitCases = %s\n Dev = %s\n" % (maxops, maxid, "TRUE" if emit else "FALSE", vlib.tla_set(dev)) +
+            "INVARIANT ValueConforms\nINVARIANT NearestWins\nINVARIANT SiblingIsolation\nINVARIANT LastWins\nCONSTRAINT EmitCase\nCHECK_DEADLOCK FALSE\n")
+
+
+INJ_TRACE_CFG = TRACE_CFG % ""
+
+
+def c04(run):
+    quick = run.tier == "quick"
+    run.build_harness()
+    run.tlc("Inject", inj_cfg(2, 1, dev=["PARENT1ST"], emit=False), name="INJ_neg", expect_violation="ValueConforms")
+    r = run.model_check("Inject", inj_cfg(2 if quick else 3, 2), name="INJ_gen", want_cases=True, heap="24g")
+    cf = vlib.subsample(r["cases_file"], 2500 if quick else 60000, run.seed, run)
+    run.conformance("inj_hist", "inject", cf, "InjectTrace", INJ_TRACE_CFG, chunk_events=15000)
+    gen = os.path.join(run.work, "inj_rand.jsonl")
+    with open(gen, "w") as fo:
+        p = run.hrun(["inject", "gen", run.seed, 600 if quick else 40000], stdout=fo)
+    if p.returncode != 0:
+        raise Infra("inject gen failed: " + p.stderr[-2000:])
+    run.conformance("inj_random", "inject", gen, "InjectTrace", INJ_TRACE_CFG, chunk_events=15000)
+    return run.finish(
+        rule="TLC enumerates every registration history (Map / MapTo / Set over 9 key types, 3 scopes with scope 3 nested or sibling, "
+             "2 value ids) up to the bound and checks the code-shaped Value() against the declarative nearest-scope relation for every "
+             "(scope, type); every history is replayed on real inject.Injector chains and - when scope 3 is a sibling - on the real "
+             "Flame -> request-context chain (scope 1 = f.Map, scopes 2/3 = c.Map in an earlier handler of two separate requests), then "
+             "all 10 signatures x {reflective, FastInvoker twin} are invoked in every scope and two tagged structs applied; each invoke/apply "
+             "event is validated by TLC (InjectTrace). Random histories up to 14 registrations. Non-trivial = >= 2 registrations.",
+        extra_assumptions=["argument identity is read from the value (id field / cap of the channel)", "reflect is trusted"])
+
+
+PROPS = {"C04": c04, "C03": c03, "C14": c14, "C15": c15, "C13": c13, "C01": c01, "C02": c02, "C07": c07, "C08": c08, "C09": c09, "C10": c10, "C12": c12}
 
 
 def main():
